@@ -12,7 +12,7 @@ N_THOROUGH = 6000
 THOROUGH_EXHAUSTIVE = True
 RULE = ('cases = corpus + random (data 0..48 bytes, Content-Length below/equal/above the data and negative, '
         'buffer 1..12, fragmentation schedules of short reads, early EOF, optional max_body_size), run through '
-        '_body_read directly and through Request.body (read twice, and again through request.copy() after a partial read), a fifth of them with a multipart Content-Type (closing delimiter + epilogue: the markup is fed while buffering); thorough adds every schedule of length <= 5 over read '
+        '_body_read directly and through Request.body (read twice, again through request.copy() after a partial read, again after a header is rewritten through Request.__setitem__ following a partial read, and with WSGI extension flags / unrelated headers / other verbs in the environ: wsgi.input_terminated, Transfer-Encoding: identity, Expect, PUT/GET, HTTP/1.0, json/form content types), a fifth of them with a multipart Content-Type (closing delimiter + epilogue: the markup is fed while buffering); thorough adds every schedule of length <= 5 over read '
         'caps {1,2,3,full} x body sizes 0..10 x buffers 1..4 x CL in {len-1,len,len+2} (exhaustive). '
         'non-trivial = at least two reads were issued and at least one of them was short or the body spilled; '
         'distinct by (len, cl, buf, schedule prefix actually consumed, via)')
@@ -46,6 +46,12 @@ def corpus():
         # a copy of the request taken after the body was (partly) read presents the same body
         dict(data=d20, cl=20, buf=8, sched=[], maxb=None, via='request', copy_after=7),
         dict(data=d20, cl=20, buf=64, sched=[2, 2], maxb=None, via='request', copy_after=20),
+        # WSGI extension flags and unrelated headers do not change which bytes are the body
+        dict(data=list(range(30)), cl=7, buf=3, sched=[], maxb=None, via='request', extra='terminated'),
+        dict(data=list(range(30)), cl=0, buf=3, sched=[], maxb=None, via='request', extra='terminated'),
+        # the application rewrites a header after reading part of the body: the body stays what it was
+        dict(data=d20, cl=20, buf=8, sched=[], maxb=None, via='request', reheader=('ctype', 5)),
+        dict(data=d20, cl=20, buf=64, sched=[3], maxb=None, via='request', reheader=('same_cl', 20)),
     ]
 
 
@@ -75,6 +81,10 @@ def gen(rng, n):
         case = dict(data=data, cl=cl, buf=buf, sched=sched, maxb=maxb, via=rng.choice(['func', 'request']))
         if case['via'] == 'request' and rng.random() < 0.3:
             case['copy_after'] = rng.choice([0, 1, 3, ln, ln + 5])
+        if case['via'] == 'request' and rng.random() < 0.3:
+            case['extra'] = rng.choice(EXTRAS)
+        if case['via'] == 'request' and rng.random() < 0.25:
+            case['reheader'] = (rng.choice(REHEADERS), rng.choice([0, 1, 3, ln, ln + 5]))
         if rng.random() < 0.2:
             # a multipart body (markup is fed while buffering): closing delimiter followed by an epilogue
             ep = bytes(rng.choice([13, 10, 45, 66, 120]) for _ in range(rng.randrange(0, 12)))
@@ -85,6 +95,38 @@ def gen(rng, n):
             if rng.random() < 0.5:
                 case['sched'] = [rng.choice([0, 1, 2, len(MP_BODY) - 1, len(MP_BODY), 40]) for _ in range(rng.randrange(1, 80))]
         yield case
+
+
+# environ entries that must not change which bytes are the body of a Content-Length request
+EXTRA_ENV = {
+    'terminated': {'wsgi.input_terminated': True},
+    'te_identity': {'HTTP_TRANSFER_ENCODING': 'identity'},
+    'expect': {'HTTP_EXPECT': '100-continue', 'HTTP_CONNECTION': 'keep-alive'},
+    'put': {'REQUEST_METHOD': 'PUT'},
+    'get': {'REQUEST_METHOD': 'GET'},
+    'http10': {'SERVER_PROTOCOL': 'HTTP/1.0', 'wsgi.multithread': False, 'wsgi.run_once': True},
+    'ctype_json': {'CONTENT_TYPE': 'application/json'},
+    'ctype_form': {'CONTENT_TYPE': 'application/x-www-form-urlencoded; charset=utf-8'},
+}
+EXTRAS = sorted(EXTRA_ENV)
+# header rewrites through Request.__setitem__ after a partial read of the body
+REHEADERS = ['ctype', 'same_cl', 'http', 'query', 'method']
+
+
+def _reheader(rq, kind, case):
+    if kind == 'ctype':
+        rq['CONTENT_TYPE'] = 'text/plain; rewritten=1'
+    elif kind == 'same_cl':
+        if 'CONTENT_LENGTH' in rq.environ:
+            rq['CONTENT_LENGTH'] = rq.environ['CONTENT_LENGTH']
+        else:
+            rq['HTTP_X_NO_CL'] = '1'
+    elif kind == 'http':
+        rq['HTTP_X_REWRITTEN'] = '1'
+    elif kind == 'query':
+        rq['QUERY_STRING'] = 'a=1'
+    elif kind == 'method':
+        rq['REQUEST_METHOD'] = 'PUT'
 
 
 def thorough():
@@ -119,6 +161,8 @@ def run_impl(case):
         content = body.read()
         return dict(status='ok', body=list(content), spilled=spilled, reqs=st.log, pos=st.pos)
     env = environ('POST', '/', **{'wsgi.input': st})
+    if case.get('extra'):
+        env.update(EXTRA_ENV[case['extra']])
     if case.get('mp'):
         env['CONTENT_TYPE'] = 'multipart/form-data; boundary=B'
     if case['cl'] >= 0:
@@ -143,6 +187,13 @@ def run_impl(case):
             c3 = rq.copy().body.read()
             if c3 != c1:
                 return dict(status='unstable', first=list(c1), second=list(c3), where='request.copy()')
+        if case.get('reheader') is not None:
+            kind, k = case['reheader']
+            rq.body.read(k)
+            _reheader(rq, kind, case)
+            c4 = rq.body.read()
+            if c4 != c1:
+                return dict(status='unstable', first=list(c1), second=list(c4), where='after rewriting %s' % kind)
     except HTTPError as e:
         return dict(status='too_large' if e.status_code == 413 else 'http_%d' % e.status_code,
                     reqs=st.log, pos=st.pos)
@@ -203,14 +254,16 @@ def nontrivial(case, obs):
 
 def key(case):
     return (len(case['data']), case['cl'], case['buf'], tuple(case['sched'][:8]), case['via'], case['maxb'],
-            bool(case.get('mp')), case.get('copy_after'))
+            bool(case.get('mp')), case.get('copy_after'), case.get('extra'), case.get('reheader'))
 
 
 def classify(case, obs):
     ln, cl = len(case['data']), case['cl']
     rel = 'cl<0' if cl < 0 else 'cl=len' if cl == ln else 'cl<len' if cl < ln else 'cl>len(early EOF)'
-    return '%s%s/%s/%s/%s' % (case['via'], '+multipart' if case.get('mp') else '', rel,
-                              'sched' if case['sched'] else 'full-reads', obs.get('status'))
+    return '%s%s%s%s/%s/%s/%s' % (case['via'], '+multipart' if case.get('mp') else '',
+                                  '+env:' + case['extra'] if case.get('extra') else '',
+                                  '+rewrite:' + case['reheader'][0] if case.get('reheader') else '', rel,
+                                  'sched' if case['sched'] else 'full-reads', obs.get('status'))
 
 
 def shrink(case):
@@ -229,7 +282,10 @@ def shrink(case):
         yield dict(case, cl=case['cl'] - 1)
     if case['maxb'] is not None:
         yield dict(case, maxb=None)
-    if case['via'] != 'func':
+    for k in ('copy_after', 'extra', 'reheader', 'mp'):
+        if case.get(k) is not None:
+            c = dict(case); c.pop(k); yield c
+    if case['via'] != 'func' and not (case.get('extra') or case.get('reheader') or case.get('copy_after') is not None):
         yield dict(case, via='func')
 
 
